@@ -249,19 +249,20 @@ fn replay(id: &str, path: &str) -> ! {
 // ---------------------------------------------------------------------------
 
 fn runs_for(id: &str, tier: &str) -> u64 {
+    // fixed numbers (not wall-clock cut-offs): a given seed always explores the same runs
     match (id, tier) {
-        ("C03", "quick") => 40_000,
-        ("C03", _) => 1_500_000,
-        ("C04", "quick") => 40_000,
-        ("C04", _) => 1_000_000,
-        ("C05", "quick") => 60_000,
-        ("C05", _) => 3_000_000,
-        ("C06", "quick") => 40_000,
-        ("C06", _) => 2_000_000,
-        ("C12", "quick") => 12_000,
-        ("C12", _) => 600_000,
-        ("C13", "quick") => 50_000,
-        ("C13", _) => 2_000_000,
+        ("C03", "quick") => 100_000,
+        ("C03", _) => 3_000_000,
+        ("C04", "quick") => 150_000,
+        ("C04", _) => 2_000_000,
+        ("C05", "quick") => 300_000,
+        ("C05", _) => 10_000_000,
+        ("C06", "quick") => 250_000,
+        ("C06", _) => 8_000_000,
+        ("C12", "quick") => 400_000,
+        ("C12", _) => 30_000_000,
+        ("C13", "quick") => 300_000,
+        ("C13", _) => 10_000_000,
         _ => 1000,
     }
 }
@@ -400,6 +401,38 @@ fn run_stream_check(opts: &Opts, prop: Prop, known: &[Known]) -> (Vec<Phase>, BT
         if let Some(f) = fail {
             report_failure(opts, f);
         }
+    }
+    if prop == Prop::C05 || prop == Prop::C06 {
+        // every chunking (all 2^(n-1) cut sets) of a few short streams
+        let t0 = Instant::now();
+        let shorts = sweep::short_streams();
+        let mut total_traces = 0u64;
+        let mut agg = Stats::default();
+        for (name, ps) in &shorts {
+            let nbytes: usize = ps.iter().map(|p| p.bytes.len()).sum();
+            let n = 1u64 << (nbytes - 1);
+            total_traces += n;
+            let (st, fail) = par_run(n, opts.jobs, |mask, st| {
+                let t = sweep::chunking_trace(prop, name, ps, mask, (mask % 4) as u8 + 1);
+                let w = coverage::account(&t, st, 0, 0);
+                let _ = w;
+                st.push_digest(t.digest());
+                st.probe("enumerated_chunking");
+                let v = judge_stream(&t, prop, Some(st));
+                if mask == n / 3 {
+                    st.samples.push((2_500_000 + mask, t.sample(if v.is_some() { "violation" } else { "ok" })));
+                }
+                v.and_then(|v| handle(v, Payload::Stream(t.clone())))
+            });
+            agg.merge(st);
+            if let Some(f) = fail {
+                report_failure(opts, f);
+            }
+        }
+        extra = json!({
+            "exhaustive_subspaces": [format!("all 2^(n-1) chunkings of {} short streams (9..15 bytes: two tiny frames, stray 0xD3, broken frame, header-only, nested frames), {} traces, rover variant rotating", shorts.len(), total_traces)],
+        });
+        phases.push(Phase { name: "all_chunkings_of_short_streams".into(), items: total_traces, stats: agg, wall_s: t0.elapsed().as_secs_f64() });
     }
     // phase 3: seeded random exploration
     let t0 = Instant::now();
